@@ -182,6 +182,15 @@ func (in *instr) walkFunc(body *ast.BlockStmt) {
 			if fl, ok := s.Call.Fun.(*ast.FuncLit); ok {
 				fl.Body.List = append([]ast.Stmt{in.yieldStmt(s.Pos())}, fl.Body.List...)
 			}
+			// go X.someOnce.Do(f)  ->  go simrt.OnceDo(&X.someOnce, f, site)
+			if sel, ok := s.Call.Fun.(*ast.SelectorExpr); ok && sel.Sel.Name == "Do" && len(s.Call.Args) == 1 {
+				if rs, ok := sel.X.(*ast.SelectorExpr); ok && strings.HasSuffix(rs.Sel.Name, "Once") {
+					pos := s.Call.Pos()
+					s.Call.Fun = &ast.SelectorExpr{X: ast.NewIdent("simrt"), Sel: ast.NewIdent("OnceDo")}
+					s.Call.Args = []ast.Expr{&ast.UnaryExpr{Op: token.AND, X: sel.X}, s.Call.Args[0], in.site(pos)}
+					in.nLock++
+				}
+			}
 		case *ast.ExprStmt:
 			if c, ok := s.X.(*ast.CallExpr); ok {
 				in.rewriteLock(c)
